@@ -342,7 +342,11 @@ def run_case(case, root):
                             % (k, got[k][:40], b[:40], after))
                 for k in got:
                     if k not in files and not inflight:
-                        if after == 'pack':
+                        if env.intruder_aborted:
+                            bad('C13:abort-before-vote-leaves-blob', 'blob file %r of a transaction that began while '
+                                'another one was in tpc_finish (dirty list reset outside the commit lock) and was then '
+                                'aborted is left in the blob directory' % (k,))
+                        elif after == 'pack':
                             bad('C13:pack-keeps-removed-blob',
                                 'file %r of a revision removed by pack is still there' % (k,))
                         elif after.startswith('failcommit') or after in ('abort', 'conflict', 'undo-failed', 'c1abort'):
@@ -453,7 +457,7 @@ def run_case(case, root):
 
             def boundary(after):
                 guard()
-                if env.abort_intruder():
+                if env.intruder_aborted:
                     check_disk('abort')        # a transaction begun during a finish and aborted: no file
                 check_disk(after)
                 check_other_connection(after)
